@@ -99,6 +99,9 @@ def gen_case(rng, fam):
         elif kind == 'map_async':
             nodes.append({'id': 'n1', 'op': 'map_async', 'ups': ['n0'], 'f': 'ident', 'parallelism': n,
                           'svc': g._svc(), 'ret': rng.choice(['coro', 'future', 'tornado'])})
+            if nodes[-1]['ret'] != 'coro' and rng.random() < 0.3:
+                # the mapped function raises when it is called for one element: that emit fails, every later one still completes
+                nodes[-1]['fail_at_call'] = [rng.randrange(0, 3)]
         else:
             nodes.append({'id': 'n1', 'op': 'source', 'ups': []})
             if rng.random() < 0.1:
@@ -147,6 +150,8 @@ def gen_case(rng, fam):
                      'sink_kind': 'coro', 'sink_ms': 0, 'fwd_ms': [rng.choice([5, 20, 60]) for _ in range(3)]})
         return case
     if rng.random() < 0.3:
+        case['join'] = rng.choice(['union', 'union_below_map'])
+    if rng.random() < 0.3:
         # the caller threads run an event loop of their own and call the blocking emit from a coroutine on it
         case['caller_loop'] = True
     if rng.random() < 0.3:
@@ -178,7 +183,11 @@ def check_async(case, counters, sets):
         return specs[u[0]]['op'] if u[0] in specs else '?'
     for name, msg, exc in ar.errors:
         add('C03:loop-exception:%s' % (type(exc).__name__ if exc is not None else 'log'), '%s %s %r' % (name, msg[:200], exc))
+    injected_call_failures = any(s.get('fail_at_call') for s in case['prog']['nodes'])
     for i, exc in ar.emit_exc.items():
+        if injected_call_failures and type(exc).__name__.startswith('Injected'):
+            counters['B_emits_failed_by_a_function_that_raises_when_called'] = counters.get('B_emits_failed_by_a_function_that_raises_when_called', 0) + 1
+            continue
         add('C03:emit-raised:%s' % type(exc).__name__, 'emit #%d raised %r' % (i, exc))
     # a consumer call is open from the moment the consumer function is invoked (CALLED) -- for a coroutine-style consumer
     # that is before its body runs -- until it reports END / FAILED
@@ -275,6 +284,8 @@ def check_async(case, counters, sets):
                     outs += 1
                     chk()
             else:
+                if k == 'ACCEPTED' and e[5] is not None:
+                    continue            # the insertion failed (the mapped function raised when called): nothing was accepted
                 if k == 'ACCEPTED':
                     acc[0] = acc.get(0, 0) + 1
                 elif k == 'OUT':
@@ -415,6 +426,13 @@ def check_threaded(case, counters, sets):
     # a loop-needing node binds the pipeline to the background loop in blocking mode
     if not any(op == 'rate_limit' for op in case['chain']):
         node = node.rate_limit(0)
+    entries = [src]
+    if case.get('join'):
+        # a second, undeclared source joined in below the node that brought the loop: blocking emits into IT must wait as well
+        other_src = Stream()
+        node = getattr(node, case['join'])(other_src) if case['join'] == 'union' else node.union(other_src.map(lambda x: x))
+        entries.append(other_src)
+        counters['T_cases_with_a_joined_second_source'] = counters.get('T_cases_with_a_joined_second_source', 0) + 1
     s = node.sink(sink)
     errors = []
 
@@ -423,7 +441,7 @@ def check_threaded(case, counters, sets):
             x = (t, j)
             rec('CALL_EMIT', x)
             try:
-                src.emit(x)
+                entries[(t + j) % len(entries)].emit(x)
             except Exception as ex:
                 errors.append((x, ex))
                 rec('EMIT_RAISED', x, ex)
